@@ -1191,3 +1191,35 @@ fault("c13-row-built-then-formatted", "C13", "R13e",
       (HTTP, "        retstr += '</TD><TD><FONT SIZE=\"-2\">'\n", "        retstr = (retstr + '</TD><TD><FONT SIZE=\"{size}\">').format(size=\"-2\")\n"))
 twin("c13-twin-row-piece-formatted-alone", "C13",
      (HTTP, "        retstr += '</TD><TD><FONT SIZE=\"-2\">'\n", "        retstr += '</TD><TD><FONT SIZE=\"{size}\">'.format(size=\"-2\")\n"))
+
+# ======================================================================= round m
+FEXT = "pygopherd/fileext.py"
+fault("c01-side-files-next-to-the-root", "C01", "R01f",
+      (GE, "            self.handleeaext(self.fspath + \"/\", vfs)  # Add the / so we get /.abs\n", "            self.handleeaext(self.fspath.rstrip(\"/\"), vfs)\n"))
+fault("c08-extension-cut-at-its-first-occurrence", "C08", "R08i",
+      (FEXT, "            extindex = file.rfind(possible)\n", "            extindex = file.find(possible)\n"))
+fault("c13-flag-in-the-count-position", "C13", "R13f",
+      (HTMLH, "title = re.sub(r\"[\\s]+\", \" \", parser.titlestr)", "title = re.sub(r\"[\\s]+\", \" \", parser.titlestr, re.ASCII)"))
+twin("c13-twin-flag-passed-by-keyword", "C13",
+     (HTMLH, "title = re.sub(r\"[\\s]+\", \" \", parser.titlestr)", "title = re.sub(r\"[\\s]+\", \" \", parser.titlestr, flags=re.ASCII)"))
+fault("c14-index-store-written-under-a-narrow-guard", "C14", "R14h",
+      (ZIP, "        except Exception:\n            # Not only OSError:", "        except OSError:\n            # Not only OSError:"))
+fault("c14-negative-lookups-shared-by-all-archives", "C14", "R14g",
+      (ZIP, "    invalid_paths: typing.Set[str]\n", "    invalid_paths: typing.Set[str] = set()\n"),
+      (ZIP, "        self.invalid_paths = set()\n", ""))
+fault("c16-member-path-after-the-last-occurrence", "C16", "R16n",
+      (ZIP, "        selector = selector[len(self.zipfilename) :]\n", "        selector = selector.rsplit(self.zipfilename, 1)[-1]\n"))
+fault("c17-fill-slot-goes-to-the-outermost-macro", "C17", "R17o",
+      (TALPY, "\t\tlocation = len (self.tagStack) - 1\n\t\twhile (ourMacroLocation is None):\n\t\t\tmacroLocation = self.tagStack[location][2]\n\t\t\tif (macroLocation is not None):\n\t\t\t\tourMacroLocation = macroLocation\n\t\t\telse:\n\t\t\t\tlocation -= 1\n\t\t\t\tif (location < 0):\n",
+       "\t\tlocation = 0\n\t\twhile (ourMacroLocation is None):\n\t\t\tmacroLocation = self.tagStack[location][2] if location < len (self.tagStack) else None\n\t\t\tif (macroLocation is not None):\n\t\t\t\tourMacroLocation = macroLocation\n\t\t\telse:\n\t\t\t\tlocation += 1\n\t\t\t\tif (location >= len (self.tagStack)):\n"))
+fault("c18-text-keyword-kept-as-the-flag", "C18", "R18j",
+      (TALPY, "\t\t\telif (attProps[0] == \"text\"):\n\t\t\t\tstructureFlag = 0\n", "\t\t\telif (attProps[0] == \"text\"):\n\t\t\t\tstructureFlag = attProps[0]\n"))
+fault("c20-handler-looked-up-while-reporting", "C20", "R20i",
+      (SERVER, "            GopherExceptions.log(e, protohandler, None)\n        except Exception as e:", "            GopherExceptions.log(e, protohandler, protohandler.gethandler())\n        except Exception as e:"))
+fault("c12-newest-entry-of-an-empty-listing", "C12", "R12k",
+      (DIR, "        self.files.sort()\n", "        self.files.sort()\n        self.newest = max(len(f) for f in self.files)\n"))
+twin("c12-twin-newest-entry-with-a-default", "C12",
+     (DIR, "        self.files.sort()\n", "        self.files.sort()\n        self.newest = max((len(f) for f in self.files), default=0)\n"))
+fault("c11-failure-kept-in-the-except-name", "C11", "R11i",
+      (DIR, "            except Exception:\n                # Truncated or corrupt cache file: regenerate the listing.\n                return False\n",
+       "            except Exception as error:\n                pass\n            if error is not None:\n                return False\n"))
